@@ -81,6 +81,8 @@ def cases(rng, tier, X):
     out += [('hist%d' % k, history(rng)) for k in range(n)]
     # small scope, exhaustively: every frame sequence up to length 2 (quick) / 3 (thorough) over the 23-symbol alphabet, and up to length 4 over 9 symbols
     out += F.small_scope(2 if tier == 'quick' else 3)
+    # one kind of event repeated hundreds / thousands of times (counters wrapping, thresholds, budgets), then ordinary traffic
+    out += F.soak_cases(rng, tier)
     if tier == 'thorough':
         out += [c for c in F.small_scope(4, symbols={'dA', 'dB', 'dA1', 'rA', 'rB1', 'eA', 'qA', 'lB1', 'p1'}) if c[0].count('_') == 4]
     # universal traffic (every frame type / sender / path / service / boundary value, 1..3 interfaces): this check's predicate on it
